@@ -15,7 +15,7 @@ import (
 
 func init() {
 	register(&Prop{ID: "C16", Run: runC16, MinNontrivial: 500,
-		Rule: "cases = (BuildAuthBodyPost, BuildAuthBodyPostFromDocument, BuildLogoutBodyPostFromDocument, BuildLogoutResponseBodyPostFromDocument) x relay states (quotes, angle brackets, ampersands, </form>, </script>, script fragments, attribute breakers, newlines, CR, non-ASCII, astral, long) x signed/unsigned/caller-made documents x URL-safe IdP endpoints with and without query; oracle tokenises the page with golang.org/x/net/html (an HTML5 tokenizer independent of html/template) and requires exactly the expected token sequence: one form (action == endpoint), hidden SAMLRequest|SAMLResponse == base64(doc.WriteToBytes()), RelayState input present iff non-empty and equal after entity decoding, the submit input, script elements with the fixed template text, nothing else; non-trivial = a page was produced; distinct by parameter tuple",
+		Rule:        "cases = (BuildAuthBodyPost, BuildAuthBodyPostFromDocument, BuildLogoutBodyPostFromDocument, BuildLogoutResponseBodyPostFromDocument) x relay states (quotes, angle brackets, ampersands, </form>, </script>, script fragments, attribute breakers, newlines, CR, non-ASCII, astral, long) x signed/unsigned/caller-made documents x URL-safe IdP endpoints with and without query; oracle tokenises the page with golang.org/x/net/html (an HTML5 tokenizer independent of html/template) and requires exactly the expected token sequence: one form (action == endpoint), hidden SAMLRequest|SAMLResponse == base64(doc.WriteToBytes()), RelayState input present iff non-empty and equal after entity decoding, the submit input, script elements with the fixed template text, nothing else; non-trivial = a page was produced; distinct by parameter tuple",
 		Assumptions: []string{"NUL and U+000D are excluded from relay states (not representable in an HTML form: HTML input-stream preprocessing turns CR/CRLF into LF, and form submission re-normalises newlines)", "IdP endpoints are URL-safe (html/template normalises exotic URLs in action=)"}})
 }
 
@@ -78,8 +78,12 @@ func mkAttrs(kv ...string) string {
 
 func expectedPage(kind, endpoint, b64, relay string) []htok {
 	var out []htok
-	st := func(tag string, kv ...string) { out = append(out, htok{typ: html.StartTagToken, tag: tag, attrs: mkAttrs(kv...)}) }
-	sc := func(tag string, kv ...string) { out = append(out, htok{typ: html.SelfClosingTagToken, tag: tag, attrs: mkAttrs(kv...)}) }
+	st := func(tag string, kv ...string) {
+		out = append(out, htok{typ: html.StartTagToken, tag: tag, attrs: mkAttrs(kv...)})
+	}
+	sc := func(tag string, kv ...string) {
+		out = append(out, htok{typ: html.SelfClosingTagToken, tag: tag, attrs: mkAttrs(kv...)})
+	}
 	et := func(tag string) { out = append(out, htok{typ: html.EndTagToken, tag: tag}) }
 	tx := func(s string) { out = append(out, htok{typ: html.TextToken, text: s}) }
 	if kind == "logoutresp" {
